@@ -25,10 +25,10 @@ NoIter == [slot |-> 0, p |-> <<0, 0>>]
 St0 == [reg |-> [k \in Slots |-> IF k = 1 THEN EmptyIndex ELSE NoIndex], it |-> NoIter]
 
 Out(st, ret, why, touched, info) == [st |-> st, ret |-> ret, why |-> why, touched |-> touched, info |-> info]
-NoInfo == [s |-> 0, b |-> 0]
+NoInfo == [s |-> 0, b |-> 0, cnt |-> 0]
 
 \* the Stream and Block an iterator at position q shows (Block number in file, 0 = undefined)
-IterInfo(i, q) == [s |-> q[1], b |-> IF q[2] = 0 THEN 0 ELSE Layout(i).st[q[1]].first + q[2] - 1]
+IterInfo(i, q) == [s |-> q[1], b |-> IF q[2] = 0 THEN 0 ELSE Layout(i).st[q[1]].first + q[2] - 1, cnt |-> 0]
 PosOfBlock(i, nfile) == LET b == Layout(i).bl[nfile] IN <<b.s, b.nstream>>
 
 Copies(x, n) == [k \in 1..n |-> x]
@@ -76,6 +76,20 @@ Apply(st, o) ==
                 grp(g) == Copies(Rec(BigOf(8), BigOf(Digit(o.n, g - 1, 2))), 512)
                 all == FoldLeft(LAMBDA a, g : a \o grp(g), <<>>, [g \in 1..o.m |-> g])
             IN  upd(o.k, Res("OK", "ok", WithLast(i, [LastStream(i) EXCEPT !.recs = @ \o all])))
+      [] o.op = "park" ->
+            \* iterate-some / append-many / iterate-rest on the last Stream of slot o.k: append o.n Records (8, 1);
+            \* attach the iterator and locate offset o.u, which lies in the t-th of them (o.v = t); append o.m more;
+            \* then call next(mode o.j) until it reports the end.  Predicted: the number of items returned
+            \* (info.cnt) and the last one (info.s, info.b).
+            LET i0 == reg[o.k]
+                t == o.v[1]
+                s == Len(i0.streams)
+                p == <<s, Len(LastStream(i0).recs) + t>>
+                i2 == WithLast(i0, [LastStream(i0) EXCEPT !.recs = @ \o Copies(Rec(BigOf(8), BigOf(1)), o.n + o.m)])
+                rest == SelectSeq(Items(i2, o.j), LAMBDA q : After(o.j, p, q))
+                q == IF rest = <<>> THEN p ELSE rest[Len(rest)]
+            IN  Out([reg |-> [reg EXCEPT ![o.k] = i2], it |-> [slot |-> o.k, p |-> q]], "END", "drained", {},
+                    [s |-> q[1], b |-> BlockCount(Prefix(i2, q[1])) + q[2], cnt |-> Len(rest)])
       [] o.op = "dup" -> upd(o.j, DoDup(reg[o.k]))
       [] o.op = "encdec" ->
             LET r == DoEncDec(reg[o.k])
@@ -97,7 +111,7 @@ Apply(st, o) ==
                 b == LocateIn(L.bl, o.u)
                 q == <<L.bl[b].s, L.bl[b].nstream>>
             IN  IF b = 0 THEN Out(st, "END", "beyond", {}, NoInfo)
-                ELSE Out([st EXCEPT !.it.p = q], "FOUND", "inside", {}, [s |-> q[1], b |-> b])
+                ELSE Out([st EXCEPT !.it.p = q], "FOUND", "inside", {}, [s |-> q[1], b |-> b, cnt |-> 0])
 
 (* The calls offered in state st, by kind (one TLC action per kind, so that a random walk picks    *)
 (* kinds, not values, uniformly).                                                                  *)
